@@ -36,6 +36,7 @@ func (w *SnapshotWrapper) addRef() *SnapshotWrapper {
 	if w != nil {
 		w.m.Lock()
 		w.refCount++
+		verifRef("SnapshotWrapper", w, int(w.refCount))
 		w.m.Unlock()
 	}
 
@@ -45,6 +46,7 @@ func (w *SnapshotWrapper) addRef() *SnapshotWrapper {
 func (w *SnapshotWrapper) decRef() (err error) {
 	w.m.Lock()
 	w.refCount--
+	verifRef("SnapshotWrapper", w, int(w.refCount))
 	if w.refCount <= 0 {
 		if w.ss != nil {
 			err = w.ss.Close()
